@@ -18,9 +18,9 @@ FUNCTIONS = ["gcmpy.message_passing.message_passing.MessagePassing.theoretical",
              "gcmpy.message_passing.equations.automated_equation.AutomatedEquation.automated_equation"]
 STUBS = []
 BOUNDS = {
-    "quick": "pool of 6 cover-labelled networks (two triangles sharing a vertex; triangle+pendant edge+diamond; ring of three triangles; K4 with a tail; "
-             "4-cycle+edge+triangle; chorded 5-cycle with two tails); step identity for every (vertex, motif) pair with all messages symbolic; whole run with symbolic phi: 25 iterations "
-             "(the default) on the tree-like networks, 2 on the ring; query histories phi_a, phi_b, phi_a; range and per-message monotonicity of every step; "
+    "quick": "pool of 7 cover-labelled networks (two triangles through one vertex built from a sorted edge list so that its adjacency alternates between the motifs; two triangles sharing a vertex; triangle+pendant edge+diamond; ring of three triangles; K4 with a tail; "
+             "4-cycle+edge+triangle; chorded 5-cycle with two tails); step identity for every (vertex, motif) pair with all messages symbolic; whole run with symbolic phi: 0, 1, 2 and 25 (the default) iterations "
+             "on the tree-like networks, 0, 1, 2 on the ring; query histories phi_a, phi_b, phi_a; range and per-message monotonicity of every step; "
              "phi-monotonicity of the step for 2- and 3-vertex motifs",
     "thorough": "ring with 3 iterations; one more network (K5 hub); phi-monotonicity attempted for 4-vertex motifs (reported undecided on timeout)",
 }
@@ -52,6 +52,8 @@ NETS = {
     "triangle-ring": [M("clique", [0, 1, 2]), M("clique", [2, 3, 4]), M("clique", [4, 5, 0])],
     "k4-tail": [M("clique", [10, 1, 2, 3]), M("clique", [3, 4]), M("clique", [4, 5])],
     "c4-edge-tri": [M("cycle", [0, 1, 2, 3]), M("clique", [0, 4]), M("clique", [2, 5, 6])],
+    # built from ONE sorted edge list (see build): the neighbours of vertex 5 alternate between its two motifs
+    "interleaved": [M("clique", [0, 2, 5]), M("clique", [1, 3, 5]), M("clique", [3, 4])],
     "k5-hub": [M("clique", [0, 1, 2, 3, 4]), M("clique", [4, 5]), M("clique", [0, 6, 7])],
     "c5chord": [M("c5chord", [0, 1, 2, 3, 4]), M("clique", [2, 5]), M("clique", [4, 6])],
 }
@@ -60,12 +62,17 @@ LOOPY = {"triangle-ring"}
 
 def configs(tier):
     q = tier == "quick"
-    names = ["two-triangles", "tri-edge-diamond", "triangle-ring", "k4-tail", "c4-edge-tri", "c5chord"] + ([] if q else ["k5-hub"])
+    names = ["two-triangles", "tri-edge-diamond", "triangle-ring", "k4-tail", "c4-edge-tri", "c5chord", "interleaved"] + ([] if q else ["k5-hub"])
     cfgs = []
     for n in names:
         cfgs.append({"name": f"step-{n}", "kind": "step", "net": n, "tier": tier})
         T = (2 if q else 3) if n in LOOPY else 25
         cfgs.append({"name": f"run-{n}-T{T}", "kind": "run", "net": n, "T": T})
+        # on tree-like networks every message becomes exactly 1 after a few sweeps, so the long run is a trivial identity there:
+        # the short runs (0, 1, 2 sweeps from the 0.5 start) are the informative ones
+        for t in (0, 1, 2):
+            if t != T:
+                cfgs.append({"name": f"run-{n}-T{t}", "kind": "run", "net": n, "T": t})
         cfgs.append({"name": f"concrete-{n}", "kind": "concrete", "net": n})
     cfgs.append({"name": "history-two-triangles", "kind": "history", "net": "two-triangles", "T": 3})
     cfgs.append({"name": "history-tri-edge-diamond", "kind": "history", "net": "tri-edge-diamond", "T": 2})
@@ -74,10 +81,15 @@ def configs(tier):
 
 def build(net):
     G = nx.Graph()
+    rows = []
     for mid, m in enumerate(NETS[net]):
         label = f"{m['key']}-{m['vs']}-{m['es']}-{mid}"
         for a, b in m["es"]:
-            G.add_edge(a, b, CoverLabel=label)
+            rows.append((min(a, b), max(a, b), label))
+    if net == "interleaved":
+        rows.sort()  # one sorted edge list instead of motif by motif
+    for a, b, label in rows:
+        G.add_edge(a, b, CoverLabel=label)
     return G
 
 
@@ -171,7 +183,7 @@ def path(ctx, cfg):
         val = ctx.guard("run-raised", mp.theoretical, phi)
         ref = reference_run(net, G, phi, cfg["T"])
         ctx.require(eq(val, ref), "whole-run", f"{net}: theoretical(phi) after {cfg['T']} sweeps differs from the reference Gauss-Seidel sweep of the exact equations",
-                    twin=eq(val, ref + phi), logic="QF_NRA", timeout=120000)
+                    twin=eq(val, ref + phi + 1), logic="QF_NRA", timeout=120000)
         ctx.observe("S", val)
         return
     if kind == "concrete":
